@@ -288,11 +288,41 @@ def run(ctx):
         bad_rm += [c for c in marks if not _dc_true(c.bb)]
         if removes:
             chk.ob("C11.b", f"{rt.path} [removal cause]", not bad_rm, f"{len(removes)} removal site(s), {len(marks)} mark site(s), each on drive_connection() == true" if not bad_rm else f"a client is removed (line {bad_rm[0].line}) without its connection having been driven to an end: a client that is still reading stops receiving metrics", bad_rm[0].loc() if bad_rm else rt.loc())
+        # the fan-out only reads the shared batch: inside the per-client loop nothing removes messages from it (what is
+        # discarded for a slow client is discarded from that client's own queue), and a client's queue is trimmed only after
+        # its connection was driven in the same pass (so what is trimmed is what could not be written)
+        takes_ = [c for c in nonforeign_calls(rt) if c.fn is rt and c.is_("Iterator::take") and sym_is_call(strip_sym(arg_syms(c)[0]), "VecDeque<T, A>::iter", "iter")]
+        if takes_:
+            qsym_ = repr(strip_sym(strip_sym(arg_syms(takes_[0])[0])[2][0]))
+            REMOVERS = ("drain", "pop_front", "pop_back", "truncate", "retain", "retain_mut", "split_off", "remove", "swap_remove_back", "swap_remove_front")
+            robbed = [c for c in nonforeign_calls(rt) if c.fn is rt and callee_method_name(c) in REMOVERS and c.args and repr(strip_sym(arg_syms(c)[0])) == qsym_]
+            chk.ob("C11.a", f"{rt.path} [shared batch only read in the fan-out]", not robbed, "no message is removed from the per-pass batch before it is cleared as a whole" if not robbed else f"the fan-out removes messages from the batch shared by all clients ({callee_method_name(robbed[0])}): clients visited later in the pass silently lose them", robbed[0].loc() if robbed else rt.loc(), nontrivial=False)
+            trims = [c for c in nonforeign_calls(rt) if c.fn is rt and callee_method_name(c) == "drain" and c.args and repr(strip_sym(arg_syms(c)[0])) != qsym_ and "VecDeque" in (c.resolved or "") and in_cycle(b, c.bb)]
+            drives = [c for c in nonforeign_calls(rt) if c.fn is rt and c.is_("drive_connection")]
+            for tcall in trims:
+                driven = any(b.dominates(dc.bb, tcall.bb) and dc.bb != tcall.bb and repr(strip_sym(arg_syms(dc)[2])) == repr(strip_sym(arg_syms(tcall)[0])) for dc in drives)
+                chk.ob("C11.a", f"{rt.path} [queue trimmed only after a drive]", driven, "the client's connection is driven before older messages are discarded for it" if driven else "a client's queue is trimmed without first driving its connection in this pass: messages that could have been written (a new client's greeting) are discarded for a client that is reading", tcall.loc(), nontrivial=False)
         # metadata for a new client is its initial queue
         if inserts:
             v = strip_sym(sy.operand(inserts[0].args[2]))
             # (connection, no parked remainder, metadata messages) — as a tuple or as a private per-client struct
             parts = [strip_sym(x) for x in v[3]] if v[0] == "agg" and len(v[3]) == 3 else []
+            # ... the whole of it: the greeting is not cut down between its construction and the insert
+            from props.common import _mut_borrowed
+
+            gm_ = [c for c in nonforeign_calls(rt) if c.fn is rt and c.is_("generate_metadata_messages")]
+            cut_ = False
+            for c in gm_:
+                dl = c.t["dest"]["l"] if not c.t["dest"].get("pr") else None
+                for _ in range(4):
+                    if dl is None:
+                        break
+                    if _mut_borrowed(b, dl):
+                        cut_ = True
+                    mv = [st["p"]["l"] for i_, k_, st in b.stmts() if st["k"] == "assign" and st["rv"]["k"] == "use" and (st["rv"]["a"].get("move") or {}).get("l") == dl and not (st["rv"]["a"].get("move") or {}).get("pr") and not st["p"].get("pr")]
+                    dl = mv[0] if len(mv) == 1 else None
+            if cut_:
+                chk.ob("C11.d", f"{rt.path} [greeting complete]", False, "the metadata greeting of a new client is modified (truncated) before it is queued: with more described metrics than the buffer size a reading client never receives part of the metadata", gm_[0].loc(), nontrivial=False)
             okm = len(parts) == 3 and sum(1 for x in parts if sym_is_call(x, "generate_metadata_messages")) == 1 and sum(1 for x in parts if x[0] == "agg" and x[2] == "None") == 1 and sum(1 for x in parts if "accept" in sym_str(x)) == 1
             chk.ob("C11.d", f"{rt.path} [new client queue]", okm, "a new client starts with (conn, no remainder, metadata messages)" if okm else "a new client's queue does not start with the known metadata", inserts[0].loc())
         # client tokens are never reused: a token that is still some client's key would make clients.insert replace
